@@ -633,6 +633,23 @@ class FixedArray
     bool isMaskedReference() const {return _indices.get() != 0;}
     size_t unmaskedLength() const {return _unmaskedLength;}
 
+    template <class S> friend class FixedArray;
+
+    // A view of one component (a sub-object of type S at the same place in
+    // every element), as returned by the .x/.r/.min/... accessors of the
+    // vector, color, quaternion and box arrays.  'first' is that component
+    // in raw element 0 (unchecked_direct_index(0)), 'componentsPerElement'
+    // is sizeof(T)/sizeof(S).  The view shares the data handle and writable
+    // state of this array and, for a masked reference, its mask.
+    template <class S>
+    FixedArray<S> componentView (S *first, size_t componentsPerElement)
+    {
+        FixedArray<S> view (first, _length, componentsPerElement * _stride, _handle, _writable);
+        view._indices        = _indices;
+        view._unmaskedLength = _unmaskedLength;
+        return view;
+    }
+
     // Conversion of indices to raw pointer indices.
     // This should only be called when this is a masked reference.
     // No safety checks done for performance.
